@@ -104,8 +104,10 @@ func c05History(rng *seqRng, g *seqGen) []string {
 		switch {
 		case r < 45:
 			emit("mdb %d s 0 %s %d set", d, keys[rng.n(2)], g.newContent(false))
-		case r < 55:
+		case r < 52:
 			emit("mdb %d d 0 %s", d, keys[rng.n(2)])
+		case r < 55:
+			emit("mdb %d d 0 -", d) // Delete of the empty key is accepted
 		case r < 70:
 			emit("mdb %d close", d)
 			open[d] = false
